@@ -6,6 +6,19 @@ sys.path.insert(0, os.path.dirname(os.path.dirname(os.path.abspath(__file__))))
 import harness as H  # noqa
 
 
+def prioritise(fails, per_known=3, cap=60):
+    """Unknown failures first; at most `per_known` examples of each known finding."""
+    unknown = [f for f in fails if not f.get('known_id')]
+    seen, known = {}, []
+    for f in fails:
+        k = f.get('known_id')
+        if k:
+            seen[k] = seen.get(k, 0) + 1
+            if seen[k] <= per_known:
+                known.append(f)
+    return (unknown + known)[:cap]
+
+
 def merge(parts):
     """Combine several correspondence results into the plugin result."""
     out = {'evaluations': 0, 'distinct_nontrivial': 0, 'disagreements': [], 'samples': [], 'parts': {},
@@ -20,7 +33,7 @@ def merge(parts):
             d['entry'] = name
             out['disagreements'].append(d)
         out['samples'] += r.get('samples', [])[:2]
-        out['impl_failures'] += r.get('impl_failures', [])
+        out['impl_failures'] += prioritise(r.get('impl_failures', []))
         out['parts'][name] = {k: v for k, v in r.items() if k in (
             'evaluations', 'distinct_nontrivial', 'n_disagreements', 'exhaustive', 'distribution', 'rule', 'n_impl_failures')}
         if r.get('rule'):
